@@ -203,6 +203,50 @@ pub fn task_sets(tier: Tier) -> Vec<TaskSet> {
         }
     }
     out.extend(profile_sets());
+    out.extend(medium_sets(tier));
+    out
+}
+
+/// Medium-sized task sets (3-4 tasks, start domains of 3-5 values, durations 0-4, usages 0-3,
+/// capacities 2-4): every `stride`-th element of the full product space in mixed-radix order.
+/// Their complete enumeration under the default brancher drives the incremental propagators
+/// through long sequences of conflicts, backtracks and re-derived bounds.
+pub fn medium_sets(tier: Tier) -> Vec<TaskSet> {
+    let mut out = vec![];
+    for (n, stride) in [(3usize, if tier.quick() { 337_331u64 } else { 40_009 }), (4, if tier.quick() { 202_500_007 } else { 16_200_007 })] {
+        let per_task = 5 * 3 * 5 * 4u64;
+        let total = per_task.pow(n as u32) * 3;
+        let mut i = stride / 2;
+        while i < total {
+            let mut x = i;
+            let cap = 2 + (x % 3) as i32;
+            x /= 3;
+            let mut vars = vec![];
+            let mut durations = vec![];
+            let mut usages = vec![];
+            for _ in 0..n {
+                let lb = (x % 5) as i32;
+                x /= 5;
+                let width = 2 + (x % 3) as i32;
+                x /= 3;
+                durations.push((x % 5) as i32);
+                x /= 5;
+                usages.push((x % 4) as i32);
+                x /= 4;
+                vars.push(VarDecl::interval(lb, lb + width));
+            }
+            out.push(TaskSet {
+                vars,
+                starts: (0..n).map(View::id).collect(),
+                durations,
+                usages,
+                cap,
+                side: None,
+                more: vec![],
+            });
+            i += stride;
+        }
+    }
     out
 }
 
@@ -284,7 +328,7 @@ impl Property for C08 {
     }
     fn rule(&self, tier: Tier) -> String {
         format!(
-            "All task sets with 2 tasks (start domains from {} shapes incl. negative values and holes, start views x/-x{}, durations and usages 0..{}, capacities 1..{}) a family of 3-task sets (with and without a side constraint) and a family of 4-task sets (two fixed tasks leaving a gap of 0-2 time units, a long flexible task that can span both and a short one that fits the gap) and 6 two-profile sets (a 0-1 switch builds two separate overloaded profiles in one propagation round through side constraints while flexible tasks span both), each under ALL 144 CumulativeOptions; a case = (task set, option combination, brancher picked by case index from 3); the complete solution set obtained by iteration is compared with the time-point reference semantics. Non-trivial = the reference solution set is neither empty nor everything.",
+            "All task sets with 2 tasks (start domains from {} shapes incl. negative values and holes, start views x/-x{}, durations and usages 0..{}, capacities 1..{}) a family of 3-task sets (with and without a side constraint) and a family of 4-task sets (two fixed tasks leaving a gap of 0-2 time units, a long flexible task that can span both and a short one that fits the gap) 6 two-profile sets and a family of medium-sized sets (3-4 tasks, start domains of 3-5 values, durations 0-4, usages 0-3, capacities 2-4: every k-th element of the product space in mixed-radix order) (a 0-1 switch builds two separate overloaded profiles in one propagation round through side constraints while flexible tasks span both), each under ALL 144 CumulativeOptions; a case = (task set, option combination, brancher picked by case index from 3); the complete solution set obtained by iteration is compared with the time-point reference semantics. Non-trivial = the reference solution set is neither empty nor everything.",
             start_shapes(tier).len(),
             if tier.quick() { "" } else { "/x+1/2x" },
             if tier.quick() { 2 } else { 3 },
